@@ -1,8 +1,33 @@
 (* C02 -- One sweep is the exact Bellman optimality backup; the policy is greedy. *)
 From Coq Require Import QArith Qabs List Arith ZArith.
-From MdpaxV Require Import Model.ListUtil Model.QFun Model.MDP Model.Bellman Model.Batching Model.Kernel Proofs.C02P.
+From MdpaxV Require Import Model.ListUtil Model.QFun Model.MDP Model.Bellman Model.Batching Model.Kernel Model.KernelOps Proofs.C02P Proofs.GenKernelP.
+From MdpaxGen Require Import GenKernel.
 Import ListNotations.
 Open Scope Q_scope.
+
+(* THE TIE BY TRANSLATION: gen/GenKernel.v is regenerated from ValueIteration's methods on every run (vmap -> map, tuple-valued
+   vmaps split, lax.scan -> gscan, positional calls type-checked).  Instantiated with the problem interface of an mdp
+   it IS the hand-written kernel of Model/Kernel.v, function by function - so every theorem below and in C01/C03/C05/C06
+   about k_* / kernel_sweep is a theorem about what the source says now. *)
+Theorem generated_kernels_are_the_modelled_kernels : forall (M : mdp),
+  (forall st a events g V, gen_calculate_updated_state_action_value (prims_of M) st a events g V = k_state_action_value M st a events g V) /\
+  (forall st actions events g V, gen_calculate_updated_value (prims_of M) st actions events g V = k_updated_value M st actions events g V) /\
+  (forall st actions events g V, gen_extract_policy_idx_one_state (prims_of M) st actions events g V = k_policy_idx M st actions events g V) /\
+  (forall padval c batch, gen_calculate_updated_value_state_batch (prims_of M) c batch = k_value_state_batch M padval c (map Some batch)) /\
+  (forall padidx c batch, gen_extract_policy_idx_state_batch (prims_of M) c batch = k_policy_state_batch M padidx c (map Some batch)) /\
+  (forall padval batches c, gen_calculate_updated_value_scan_state_batches (prims_of M) c batches = k_scan (k_value_state_batch M padval) c (map (map Some) batches)) /\
+  (forall padidx batches c, gen_extract_policy_idx_scan_state_batches (prims_of M) c batches = k_scan (k_policy_state_batch M padidx) c (map (map Some) batches)).
+Proof.
+  exact (fun M => conj (gen_state_action_value_eq M) (conj (gen_updated_value_eq M) (conj (gen_policy_idx_eq M)
+    (conj (gen_value_state_batch_eq M) (conj (gen_policy_state_batch_eq M) (conj (gen_value_scan_eq M) (gen_policy_scan_eq M))))))).
+Qed.
+Print Assumptions generated_kernels_are_the_modelled_kernels.
+
+(* in particular the generated one-state update over the whole action and event spaces is the Bellman optimality backup *)
+Theorem generated_update_is_bellman_backup : forall (M : mdp) st g V, (0 < nA M)%nat ->
+  gen_calculate_updated_value (prims_of M) st (seq 0 (nA M)) (seq 0 (nE M)) g V = backup M g V st.
+Proof. exact gen_updated_value_is_backup. Qed.
+Print Assumptions generated_update_is_bellman_backup.
 
 (* the code-shaped computation (devices x batches x slots, padded last batch, carry tuple)
    equals the specification sweep, for EVERY layout, value vector and gamma *)
